@@ -435,6 +435,33 @@ def additions(F):
         r.ob(ok, {"add_data": list(ev)})
         if not ok:
             r.violate("%s | order" % fn["path"], F.loc(fn), "add_data events %s (expected: read len, then push)" % list(ev))
+    # what the caller hands to an add_* API is stored as given: the only field of a by-value parameter an adder may
+    # write before storing it is its id (`local_mem.mem_id = id`, `global.set_id(id)`); clamping/normalising a requested
+    # type, limit or value changes what was requested
+    n_add = 0
+    for owner in ("Module", "Memories", "Functions", "ModuleGlobals", "ModuleExports", "ModuleImports", "ModuleTypes", "CustomSections", "ModuleTables"):
+        for fn_ in F.find_fns(self_adt=owner):
+            if fn_.get("body") is None or not fn_["name"].startswith("add"):
+                continue
+            n_add += 1
+            phids = {pm["pat"].get("hid"): pm["pat"].get("name") for pm in fn_["params"] if pm["pat"].get("k") == "Binding" and not (pm.get("ty") or "").startswith("&") and pm["pat"].get("name") != "self"}
+            for x in walk(fn_["body"]):
+                if x.get("k") in ("Assign", "AssignOp"):
+                    l = x["lhs"]
+                    fields_ = []
+                    while isinstance(l, dict) and l.get("k") in ("Field", "Index", "Unary"):
+                        if l.get("k") == "Field":
+                            fields_.append(l["name"])
+                        l = l.get("base") or l.get("a")
+                    if isinstance(l, dict) and l.get("k") == "Path" and l.get("res", {}).get("hid") in phids:
+                        okw = any("id" in f_.lower() for f_ in fields_) or not fields_ and False
+                        r.ob(okw, {"adder": fn_["path"], "writes_param": "%s.%s" % (phids[l["res"]["hid"]], ".".join(reversed(fields_)))})
+                        if fn_["path"] not in r.analysed:
+                            r.analysed.append(fn_["path"])
+                        if not okw:
+                            r.violate("%s | rewrites %s.%s" % (fn_["path"], phids[l["res"]["hid"]], ".".join(reversed(fields_))), F.loc(fn_, x),
+                                      "%s::%s modifies its parameter `%s` (%s) before storing it: the added item is not the one the caller requested" % (owner, fn_["name"], phids[l["res"]["hid"]], ".".join(reversed(fields_)) or "whole value"))
+    r.count("adders", n_add)
     fn = F.one_fn(name="mod_global_init_expr", self_adt="ModuleGlobals")
     r.analysed.append(fn["path"])
     writes = [n for n in walk(fn["body"]) if n.get("k") == "Assign"]
